@@ -11,7 +11,8 @@ scheduling point announced before it executes:
     wake   return from Condition.wait                enabled iff notified and the RLock is free
     lockf  fcntl.lockf(SH|EX)                        always a step: grant / EAGAIN / EDEADLK / go to sleep
     kwait  asleep inside lockf                       enabled iff the kernel can grant
-    body   inside the `with path_lock(...)` body     always
+    close  os.close(fd)                               always (it drops every lock of the process on the file)
+    body   user code before each operation            always
 
 Releases, notify, open/close and unlock/downgrade never block and are not scheduling points (they are
 right-movers: executing them together with the preceding segment loses no behaviour).  A *segment* is
@@ -273,6 +274,7 @@ class SimProcess:
     def close(self, fd):
         if self.sim.aborting:
             return
+        self.sim.yield_point("close", fd)
         path = self.fds.pop(fd)
         # POSIX: closing ANY descriptor of a file drops all of the process's record locks on it
         self.sim.kernel.unlock(path, self.pid)
@@ -353,7 +355,7 @@ class Sim:
         if vt.done:
             return False
         kind, obj, args = vt.pending
-        if kind in ("start", "body", "lockf"):
+        if kind in ("start", "body", "lockf", "close"):
             return True
         if kind == "lock":
             return (not args["blocking"]) or obj.owner is None
